@@ -31,11 +31,13 @@ RequestsHdr == {RA(t, "Q1", "A", "-", a) : t \in {"GET", "POST"}, a \in Accs}
                \cup {RA(t, "QX", "-", "-", a) : t \in {"GET", "POST"}, a \in Accs}
                \cup {RA("POST", "-", "-", "-", a) : a \in Accs}
                \cup {RA(t, "Q1", "A", "bad", a) : t \in {"GET", "POST"}, a \in {"-", "gql"}}
-               \cup {RA(t, "Q1", "A", "-", a) : t \in {"FORM", "GRAPHQL"}, a \in {"-", "gql"}}
+               \cup {RA("FORM", "Q1", "A", "-", a) : a \in {"-", "gql"}}
+               \cup {RA("GRAPHQL", "Q1", "-", "-", a) : a \in {"-", "gql"}}   \* the body is the query text only
 
 (* two requests in flight: a small alphabet *)
-RequestsConc == {R("POST", q, o, v, e) : q \in {"-", "Q1"}, o \in {"-", "A"},
-                                          v \in {"-", "V1", "V2"}, e \in {"-", "H:Q1"}}
+RequestsConc == {r \in {R("POST", q, o, v, e) : q \in {"-", "Q1"}, o \in {"-", "A"},
+                                                 v \in {"-", "V1", "V2"}, e \in {"-", "H:Q1"}} :
+                       ~(r.vars = "V2" /\ r.ext = "H:Q1")}
                 \cup {[R("GET", "Q1", "A", "V1", "H:Q1") EXCEPT !.acc = "gql"], R("GET", "-", "-", "V2", "H:Q1"),
                       R("WS", "Q2", "-", "-", "X")}
 
